@@ -136,7 +136,11 @@ class RSAKey(PKey):
         return m
 
     def verify_ssh_sig(self, data, msg):
-        sig_algorithm = msg.get_text()
+        try:
+            sig_algorithm = msg.get_text()
+        except SSHException:
+            # not even a decodable algorithm name: not a valid signature
+            return False
         if sig_algorithm not in self.HASHES:
             return False
         key = self.key
